@@ -16,6 +16,7 @@ def confirm(src):
     try:
         meta = json.load(open(os.path.join(src, "meta.json")))
         feat = " --features serde" if "serde" in open(os.path.join(src, "demo.rs")).read() else ""
+        dflags = (" " + meta["demo_flags"]) if meta.get("demo_flags") else ""   # e.g. "--release": the demo only fails in that configuration
         if meta.get("demo_kind") == "miri":
             # ordering-only changes: the demo is a test meant for Miri (data-race detector, weak-memory emulation over many seeds)
             shutil.copy(os.path.join(src, "demo.rs"), os.path.join(wt, "tests", "zz_demo.rs"))
@@ -35,11 +36,11 @@ def confirm(src):
             json.dump(meta, open(os.path.join(dst, "meta.json"), "w"), indent=1)
             return name, True, "confirmed (miri)", ran
         shutil.copy(os.path.join(src, "demo.rs"), os.path.join(wt, "tests", "zz_demo.rs"))
-        rc, out = sh("cargo test --offline --test zz_demo" + feat, wt); ran.append("clean tree: cargo test --test zz_demo%s -> rc %d" % (feat, rc))
+        rc, out = sh("cargo test --offline --test zz_demo" + feat + dflags, wt); ran.append("clean tree: cargo test --test zz_demo%s -> rc %d" % (feat + dflags, rc))
         if rc != 0: return name, False, "demo fails on the clean tree", ran
         rc, out = sh("git apply " + os.path.join(src, "patch.diff"), wt)
         if rc != 0: return name, False, "patch does not apply: " + out[-300:], ran
-        rc, out = sh("cargo test --offline --test zz_demo" + feat, wt); ran.append("patched: cargo test --test zz_demo%s -> rc %d" % (feat, rc))
+        rc, out = sh("cargo test --offline --test zz_demo" + feat + dflags, wt); ran.append("patched: cargo test --test zz_demo%s -> rc %d" % (feat + dflags, rc))
         if rc == 0: return name, False, "demo passes with the patch", ran
         os.remove(os.path.join(wt, "tests", "zz_demo.rs"))
         rc, out = sh("cargo test --workspace --no-fail-fast --offline" + feat, wt); ran.append("patched: cargo test --workspace%s (existing suite) -> rc %d" % (feat, rc))
